@@ -75,7 +75,7 @@ func newExec(p *ssa.Program, h *Harness, cfg *RunConfig, wid int) (*Exec, error)
 		globals: map[*ssa.Global]*Object{}, inited: map[*ssa.Package]bool{}, initing: map[*ssa.Package]bool{},
 		fnInfos: map[*ssa.Function]*fnInfo{}, typeIDs: map[string]types.Type{}, uniq: map[string]*Object{},
 		violKeys: map[string]bool{}, sampled: map[string]bool{}, Tier: tier,
-		pcSet: map[*Term]int{}, unsatCache: map[int][]unsatEntry{}}
+		deadline: cfg.Deadline, mergeFail: map[mergeKey]int{}, pcSet: map[*Term]int{}, unsatCache: map[int][]unsatEntry{}}
 	return ex, nil
 }
 
@@ -99,6 +99,10 @@ func (ex *Exec) resetPath() {
 	ex.speculating = 0
 	ex.curFrame = nil
 	ex.inEnv = false
+	ex.objSeq = 0
+	ex.mergeFail = map[mergeKey]int{}
+	ex.skipPhis = false
+	ex.rawInit = false
 }
 
 // explore runs every path below the given prefix.
